@@ -28,7 +28,8 @@ RULE = ('(a) valid LUAGEN programs of the dialect x free / one-statement-per-lin
         ' Every library run writes the same Lua object twice; if the second output differs it is the one judged. LUAGEN strings include multi-line long strings whose inner lines end in blanks/tabs.'
         ' LUAGEN strings include long strings with blank-only interior lines.'
         " Comment words include backslash sequences (\\n, \\p, \\1, \\g<0>) and the editor's tab separator -->8."
-        ' Part "line_ends": eleven line-scoped shapes (short-if with bare return / break / goto / else, ? print, end-of-line and block comments, nested short-if, if-do) each under LF, CR LF and CR line ends.')
+        ' Part "line_ends": eleven line-scoped shapes (short-if with bare return / break / goto / else, ? print, end-of-line and block comments, nested short-if, if-do) each under LF, CR LF and CR line ends.'
+        ' Part "header_names": the same family through `p8tool luafmt` at widths 0/2/4 (cases of the open known finding luafmt-header-like-name-line are left out and counted while it is open).')
 ASSUMPTIONS = ['lexical rules are represented by vlib/reflex.py', 'string literals may be re-spelled with equal denotation '
                '(the codebase\'s contract for strings is C06)',
                'for clause (c) the precondition "not parsed to its end" is evaluated with picotool\'s own root.end_pos']
@@ -402,12 +403,34 @@ def part_newer(ctx):
             ctx.stats.case(src, res == 'partial_parse', {'source': show(src, 100), 'outcome': res}, ['newer_fixed', res])
 
 
+def part_header_names(ctx):
+    """Identifiers of the form __word__ alone on an (indented) input line, formatted through the command line into a
+    .p8 file: the output cart must still hold the program.  While the known finding `header_like_name_line` is open
+    (luafmt puts such a name at column 0 when its line is at nesting depth 0 or the indent width is 0, where the .p8
+    format reads it as a section header) exactly those cases are left out, and counted."""
+    avoided = 'header_like_name_line' in ctx.open_findings
+    for k, (src, name) in enumerate(c01.header_name_sources()):
+        nested = src.startswith((b'f(', b'do return', b't={'))
+        for indent in (0, 2, 4):
+            if avoided and not (nested and indent > 0):
+                ctx.stats.exclude('header_like_name_at_column_0(known finding, left out)')
+                continue
+            case = {'source': src, 'indent': indent, 'kind': 'valid', 'via': 'cli'}
+            check_valid(src, indent, [], case)
+            out, err, _u = cli_luafmt(src, indent, False, case)
+            if out is None:
+                raise Violation('`p8tool luafmt` failed on the valid program %s: %r' % (show(src), err), case, 'cli-raises')
+            compare(src, out, case, [], '`p8tool luafmt`')
+            ctx.stats.case(src + bytes((indent,)), True, {'source': show(src, 60), 'indent': indent} if k % 9 == 0 else None,
+                           ['header_like_name_alone_on_a_line'] + (['header_like_name_line_indented'] if nested and indent else []))
+
+
 def parts(tier):
     if tier == 'quick':
         return [('valid', part_valid, 8), ('degenerate', part_degenerate, 1), ('partial', part_partial, 4),
-                ('newer', part_newer, 1), ('line_ends', part_line_ends, 1)]
+                ('newer', part_newer, 1), ('line_ends', part_line_ends, 1), ('header_names', part_header_names, 1)]
     return [('valid', part_valid, 10), ('degenerate', part_degenerate, 1), ('partial', part_partial, 3),
-            ('newer', part_newer, 1), ('line_ends', part_line_ends, 1)]
+            ('newer', part_newer, 1), ('line_ends', part_line_ends, 1), ('header_names', part_header_names, 1)]
 
 
 def replay(case):
@@ -433,7 +456,7 @@ def vacuity(total, tier):
     msgs = []
     for lab in ('comments', 'line_scoped', 'no_final_newline', 'nested', 'mode_free', 'mode_lines', 'via_cli',
                 'via_cli_overwrite', 'degenerate', 'partial_parse', 'mut_newer_syntax', 'mut_token_deleted',
-                'paren_head', 'bare_cr_line_ends'):
+                'paren_head', 'bare_cr_line_ends', 'header_like_name_alone_on_a_line'):
         if total.classes.get(lab, 0) < 3:
             msgs.append('class %s seen %d times' % (lab, total.classes.get(lab, 0)))
     return msgs
